@@ -781,4 +781,220 @@ Proof.
     (split; [exact Hb|]); intros d' Hd'; inversion Hd'; subst; projs; auto.
 Qed.
 
+(* ------------------------------------------------------------------ one step of the dispatcher *)
+Lemma delim_cond_eq c w : T c = false ->
+  (beqb c x2a || beqb c x5f || beqb c x27 || beqb c x22
+   || (beqb c x7e && (io_strikethrough o1 || io_subscript o1))
+   || (beqb c x5e && io_superscript o1 && negb w)
+   || (beqb c x7c && io_spoiler o1))
+  = (beqb c x2a || beqb c x5f || beqb c x27 || beqb c x22
+   || (beqb c x7e && (io_strikethrough o2 || io_subscript o2))
+   || (beqb c x5e && io_superscript o2 && negb w)
+   || (beqb c x7c && io_spoiler o2)).
+Proof.
+  intro Hc.
+  assert (beqb c x7e && (io_strikethrough o1 || io_subscript o1) = beqb c x7e && (io_strikethrough o2 || io_subscript o2)) as ->
+    by (rewrite !(andb_comm (beqb c x7e)); apply tilde_guard_eq; exact Hc).
+  assert (beqb c x5e && io_superscript o1 = beqb c x5e && io_superscript o2) as ->.
+  { destruct A_sup as [-> | H]; [reflexivity|]. rewrite (T_neq c x5e Hc H). reflexivity. }
+  assert (beqb c x7c && io_spoiler o1 = beqb c x7c && io_spoiler o2) as ->.
+  { destruct A_spoiler as [-> | H]; [reflexivity|]. rewrite (T_neq c x7c Hc H). reflexivity. }
+  reflexivity.
+Qed.
+
+Lemma beqb_T c t : T c = false -> beqb c t = true -> T t = false.
+Proof. intros H E. apply beqb_eq in E. subst. exact H. Qed.
+
+Lemma step_eq s : Inv s ->
+  parse_inline memo o1 u inp lo start_line refmap maxref s = parse_inline memo o2 u inp lo start_line refmap maxref s.
+Proof.
+  intro I. unfold parse_inline.
+  destruct (peek inp (pos s)) as [c|] eqn:Ec; [|reflexivity]. unfold peek in Ec.
+  assert (T c = false) as Hc by (eapply nth_free; eauto).
+  apply bind_ext. intros adj _.
+  destruct (nth_error lo (N.to_nat adj)) as [off|]; [|reflexivity].
+  set (s1 := set_lineoff s off).
+  assert (Inv s1) as I1 by (apply (Inv_frame s); [unfold frame, s1; projs; auto | exact I]).
+  clearbody s1.
+  destruct (beqb c x00); [reflexivity|].
+  destruct (beqb c x0d || beqb c x0a); [reflexivity|].
+  destruct (beqb c x60); [reflexivity|].
+  destruct (beqb c x5c). { rewrite handle_backslash_eq. reflexivity. }
+  destruct (beqb c x26); [reflexivity|].
+  destruct (beqb c x3c); [reflexivity|].
+  destruct (beqb c x3a) eqn:E3a.
+  { pose proof (beqb_T c x3a Hc E3a) as Ht.
+    assert (io_autolink o1 = io_autolink o2) as Ea by (destruct A_autolink as [E|[H _]]; [exact E | congruence]).
+    assert (io_relaxed_autolinks o1 = io_relaxed_autolinks o2) as Er by (destruct A_relaxed as [E|[H _]]; [exact E | congruence]).
+    rewrite Ea. destruct (io_autolink o2); [|reflexivity].
+    rewrite (haw_eq s1 _ (url_match o2 u inp) Er) by (intro i; apply url_match_eq; exact Er). reflexivity. }
+  assert (beqb c x77 && io_autolink o1 = beqb c x77 && io_autolink o2) as ->.
+  { destruct A_autolink as [-> | [_ H]]; [reflexivity|]. rewrite (T_neq c x77 Hc H). reflexivity. }
+  destruct (beqb c x77 && io_autolink o2) eqn:Ew.
+  { apply andb_true_iff in Ew. destruct Ew as [Ew _]. pose proof (beqb_T c x77 Hc Ew) as Ht.
+    assert (io_relaxed_autolinks o1 = io_relaxed_autolinks o2) as Er by (destruct A_relaxed as [E|[_ H]]; [exact E | congruence]).
+    rewrite (haw_eq s1 _ (www_match o2 u inp) Er) by (intro i; apply www_match_eq; exact Er). reflexivity. }
+  rewrite (delim_cond_eq c (within s1) Hc).
+  match goal with |- (if ?b then _ else _) = _ => destruct b end.
+  { rewrite (handle_delim_eq s1 c Hc). reflexivity. }
+  destruct (beqb c x2d) eqn:E2d.
+  { pose proof (beqb_T c x2d Hc E2d) as Ht. rewrite handle_hyphen_eq; [reflexivity|].
+    destruct A_smart as [E|[_ [_ [H _]]]]; [exact E | congruence]. }
+  destruct (beqb c x2e) eqn:E2e.
+  { pose proof (beqb_T c x2e Hc E2e) as Ht. rewrite handle_period_eq; [reflexivity|].
+    destruct A_smart as [E|[_ [_ [_ H]]]]; [exact E | congruence]. }
+  destruct (beqb c x5b) eqn:E5b.
+  { pose proof (beqb_T c x5b Hc E5b) as Ht.
+    assert (wikilinks_mode o1 = wikilinks_mode o2) as Ew'.
+    { unfold wikilinks_mode. destruct A_wa as [-> | H]; [|congruence]. destruct A_wb as [-> | H]; [|congruence]. reflexivity. }
+    cbv zeta. rewrite Ew'. rewrite (handle_wikilink_eq _ Ew'). reflexivity. }
+  destruct (beqb c x5d).
+  { rewrite hcb_eq; [reflexivity|]. apply (Inv_frame s1); [unfold frame; projs; auto | exact I1]. }
+  destruct (beqb c x21); [reflexivity|].
+  destruct (beqb c x24) eqn:E24.
+  { pose proof (beqb_T c x24 Hc E24) as Ht. rewrite handle_dollars_eq; [reflexivity| |].
+    - destruct A_md as [E|H]; [exact E | congruence].
+    - destruct A_mc as [E|H]; [exact E | congruence]. }
+  rewrite A_fsc. reflexivity.
+Qed.
+
+Lemma wikilink_frame o s s' n : handle_wikilink o inp s = Ok (Some (s', n)) -> frame s s'.
+Proof. unfold handle_wikilink. intro H. inv; fr. Qed.
+
+Lemma Inv_push_delim s n d' :
+  Inv s -> (forall i, isbad T (i, n) = false) -> T (d_char d') = false -> d_id d' = nid s ->
+  Inv (set_delims (fst (push_item s n)) (delims (fst (push_item s n)) ++ [d'])).
+Proof.
+  intros I Hb Hc Hid. pose proof (Inv_push s n I) as [J1 [J2 J3]]. destruct I as [I1 [I2 I3]].
+  unfold Inv, push_item in *. projs. split; [exact J1|]. split; [|exact J3].
+  intros d Hd. apply in_app_or in Hd. destruct Hd as [Hd|[<-|[]]]; [apply J2; exact Hd|].
+  split; [|lia]. split; [exact Hc|]. rewrite Hid, ibad_cons. intro K. apply in_app_or in K. destruct K as [K|K].
+  - unfold ibad in K. cbn [filter] in K. rewrite Hb in K. destruct K.
+  - apply ibad_ids in K. apply in_map_iff in K. destruct K as [it [E Hi]]. specialize (I3 it Hi). lia.
+Qed.
+
+Lemma Inv_bracket s img id : Inv s -> T x5b = false -> Inv (set_within (push_bracket s img id) true).
+Proof.
+  intros I Ht. apply (Inv_weaken s _ I); unfold push_bracket; destruct img; projs;
+    try apply incl_refl; try lia; try apply I; intro K; congruence.
+Qed.
+
+Lemma peek_eq_free p t : peek_eq inp p t = true -> T t = false.
+Proof.
+  unfold peek_eq, peek_is, peek. destruct (nth_error inp p) as [b|] eqn:E; [|discriminate].
+  intro H. apply beqb_eq in H. subst. eapply nth_free; eauto.
+Qed.
+
+Lemma append_mk_inv sa v a b s' :
+  append (do n <- mk sa v a b; Ok (sa, n)) = Ok (Some s') -> exists n, s' = fst (push_item sa n).
+Proof.
+  unfold append. destruct (mk sa v a b) as [n|?|]; cbn [bind]; intro H; try discriminate.
+  inversion H. exists n. reflexivity.
+Qed.
+
+Ltac app_arm I1 lem :=
+  match goal with
+  | H : append ?r = Ok (Some _) |- _ =>
+    let Eh := fresh "Eh" in
+    unfold append in H; destruct r as [[? ?]|?|] eqn:Eh; cbn [bind] in H; [|discriminate H|discriminate H];
+    inversion H; subst; eapply Inv_push_frame; [exact I1 | eapply lem; exact Eh]
+  end.
+
+Lemma step_inv o s s' : Inv s ->
+  parse_inline memo o u inp lo start_line refmap maxref s = Ok (Some s') -> Inv s'.
+Proof.
+  intros I H. unfold parse_inline in H.
+  destruct (peek inp (pos s)) as [c|] eqn:Ec; [|discriminate]. unfold peek in Ec.
+  assert (T c = false) as Hc by (eapply nth_free; eauto).
+  destruct (nsub _ _ _) as [adj|?|]; cbn [bind] in H; try discriminate.
+  destruct (nth_error lo (N.to_nat adj)) as [off|]; [|discriminate].
+  set (s1 := set_lineoff s off) in *.
+  assert (Inv s1) as I1 by (apply (Inv_frame s); [unfold frame, s1; projs; auto | exact I]).
+  clearbody s1.
+  destruct (beqb c x00); [discriminate|].
+  destruct (beqb c x0d || beqb c x0a); [app_arm I1 newline_frame|].
+  destruct (beqb c x60); [app_arm I1 backticks_frame|].
+  destruct (beqb c x5c); [app_arm I1 backslash_frame|].
+  destruct (beqb c x26); [app_arm I1 entity_frame|].
+  destruct (beqb c x3c); [app_arm I1 pointy_frame|].
+  assert (forall b, text1 s1 b = Ok (Some s') -> Inv s') as Htext.
+  { intros b Hb. unfold text1 in Hb. apply append_mk_inv in Hb. destruct Hb as [n ->].
+    eapply Inv_push_frame; [exact I1 | apply frame_set_pos]. }
+  destruct (beqb c x3a).
+  { match type of H with bind ?r _ = _ => destruct r as [[[s2 n]|]|?|] eqn:Er end; cbn [bind] in H; try discriminate.
+    - inversion H; subst. apply Inv_push. destruct (io_autolink o); [|discriminate]. eapply haw_inv; eauto.
+    - eapply Htext; eauto. }
+  destruct (beqb c x77 && io_autolink o).
+  { match type of H with bind ?r _ = _ => destruct r as [[[s2 n]|]|?|] eqn:Er end; cbn [bind] in H; try discriminate.
+    - inversion H; subst. apply Inv_push. eapply haw_inv; eauto.
+    - eapply Htext; eauto. }
+  match type of H with (if ?b then _ else _) = _ => destruct b end.
+  { destruct (handle_delim o u inp s1 c) as [[[s2 n] d]|?|] eqn:Ed; cbn [bind] in H; try discriminate.
+    apply (handle_delim_shape o s1 c s2 n d Hc) in Ed. destruct Ed as [F [Hb Hd]].
+    assert (Inv s2) as I2 by (eapply Inv_frame; eauto).
+    destruct (push_item s2 n) as [s3 i3] eqn:Ep. inversion H; subst s'. clear H.
+    assert (s3 = fst (push_item s2 n)) as -> by (rewrite Ep; reflexivity).
+    destruct d as [d'|]; [|apply Inv_push; exact I2].
+    destruct (Hd d' eq_refl) as [Hch Hid]. apply Inv_push_delim; auto.
+    - rewrite Hch. exact Hc.
+    - destruct F as [_ [_ [_ F4]]]. rewrite Hid. symmetry. exact F4. }
+  destruct (beqb c x2d); [app_arm I1 hyphen_frame|].
+  destruct (beqb c x2e); [app_arm I1 period_frame|].
+  destruct (beqb c x5b) eqn:E5b.
+  { pose proof (beqb_T c x5b Hc E5b) as Ht. cbv zeta in H.
+    match type of H with bind ?r _ = _ => destruct r as [[[s2 n]|]|?|] eqn:Er end; cbn [bind] in H; try discriminate.
+    - inversion H; subst. match type of Er with (if ?b then _ else _) = _ => destruct b end; [|discriminate].
+      apply wikilink_frame in Er. eapply Inv_push_frame; [exact I1|]. eapply frame_trans; [apply frame_set_pos | exact Er].
+    - match type of H with bind ?r _ = _ => destruct r as [n|?|] end; cbn [bind] in H; try discriminate.
+      destruct (push_item _ n) as [s3 i3] eqn:Ep. inversion H; subst s'. apply (Inv_bracket s3 false i3); [|exact Ht].
+      assert (s3 = fst (push_item (set_pos s1 (S (pos s1))) n)) as -> by (rewrite Ep; reflexivity).
+      eapply Inv_push_frame; [exact I1 | apply frame_set_pos]. }
+  destruct (beqb c x5d).
+  { destruct (handle_close_bracket _ _ _ _ _ _) as [[s2 n]|?|] eqn:Eh; cbn [bind] in H; try discriminate.
+    apply hcb_inv in Eh; [|apply (Inv_frame s1); [unfold frame; projs; auto | exact I1]].
+    inversion H; subst. destruct n; [apply Inv_push|]; exact Eh. }
+  destruct (beqb c x21).
+  { cbv zeta in H. destruct (peek_eq inp (S (pos s1)) x5b && negb (peek_eq inp (S (S (pos s1))) x5e)) eqn:Eb.
+    - apply andb_true_iff in Eb. destruct Eb as [Eb _]. apply peek_eq_free in Eb.
+      match type of H with bind ?r _ = _ => destruct r as [n|?|] end; cbn [bind] in H; try discriminate.
+      destruct (push_item _ n) as [s3 i3] eqn:Ep. inversion H; subst s'. apply (Inv_bracket s3 true i3); [|exact Eb].
+      assert (s3 = fst (push_item (set_pos s1 (S (S (pos s1)))) n)) as -> by (rewrite Ep; reflexivity).
+      eapply Inv_push_frame; [exact I1 | apply frame_set_pos].
+    - apply append_mk_inv in H. destruct H as [n ->]. eapply Inv_push_frame; [exact I1 | apply frame_set_pos]. }
+  destruct (beqb c x24); [app_arm I1 dollars_frame|].
+  cbv zeta in H.
+  match type of H with bind ?r _ = _ => destruct r as [contents|?|] end; cbn [bind] in H; try discriminate.
+  match type of H with bind ?r _ = _ => destruct r as [[c1 e1]|?|] end; cbn [bind] in H; try discriminate.
+  match type of H with bind ?r _ = _ => destruct r as [[c2 sp2]|?|] end; cbn [bind] in H; try discriminate.
+  match type of H with bind ?r _ = _ => destruct r as [e|?|] end; cbn [bind] in H; try discriminate.
+  apply append_mk_inv in H. destruct H as [n ->]. eapply Inv_push_frame; [exact I1 | apply frame_set_pos].
+Qed.
+
+(* ------------------------------------------------------------------ the loop and the whole block *)
+Lemma loop_eq : forall fuel s, Inv s ->
+  inline_loop memo o1 u inp lo start_line refmap maxref fuel s = inline_loop memo o2 u inp lo start_line refmap maxref fuel s
+  /\ forall s', inline_loop memo o2 u inp lo start_line refmap maxref fuel s = Ok s' -> Inv s'.
+Proof.
+  induction fuel as [|f IH]; intros s I; cbn [inline_loop]; [split; [reflexivity | discriminate]|].
+  rewrite (step_eq s I).
+  destruct (parse_inline memo o2 u inp lo start_line refmap maxref s) as [[s1|]|?|] eqn:E; cbn [bind].
+  - apply IH. eapply step_inv; eauto.
+  - split; [reflexivity|]. intros s' H. inversion H; subst. exact I.
+  - split; [reflexivity | discriminate].
+  - split; [reflexivity | discriminate].
+Qed.
+
+Lemma Inv_init r0 : Inv (init_st start_line r0).
+Proof. unfold Inv, init_st. projs. split; [reflexivity|]. split; intros ? []. Qed.
+
+Theorem parse_inlines_inert r0 :
+  parse_inlines memo o1 u inp lo start_line refmap maxref r0 = parse_inlines memo o2 u inp lo start_line refmap maxref r0.
+Proof.
+  unfold parse_inlines.
+  destruct (loop_eq (S (len inp)) (init_st start_line r0) (Inv_init r0)) as [E HI]. rewrite E.
+  destruct (inline_loop memo o2 u inp lo start_line refmap maxref (S (len inp)) (init_st start_line r0)) as [s|?|]; cbn [bind]; [|reflexivity|reflexivity].
+  specialize (HI s eq_refl). rewrite process_emphasis_eq; [reflexivity|].
+  intros d Hd. apply (dgood_incl (sibs s)); [apply ibad_rev | apply (Inv_dinv s HI d Hd)].
+Qed.
+
 End Inert.
